@@ -17,7 +17,8 @@ TI_PATH_KINDS = ["packages", "repository", "source_packages", "source_repository
                  "debug_packages", "debug_repository", "identity"]
 
 NAMES = ["Fedora", "Red Hat Enterprise Linux", "Spacewalk", "Ünïcode Linux", "A" * 40,
-         "7Server", "x-1.0-ga", "release", "Tools", "Fedora Server"]
+         "7Server", "x-1.0-ga", "release", "Tools", "Fedora Server",
+         'quo"ted', "back\\slash", "tab\tchar", "null", "0", "  padded  ", "snow \u2603 man", "a/b:c=d", "{}", "[x]"]
 SHORTS = ["F", "RHEL", "sw", "rhel-ha", "Fedora", "x1", "CentOS"]
 VERSIONS_NUM = ["20", "7.0", "7.1", "10.0.1", "2.2", "5", "6.10", "20150522"]
 VERSIONS_FREE = ["Rawhide", "rawhide", "Bikeshed", "eln"]
@@ -60,6 +61,8 @@ def subset(rng, seq, lo=0, hi=None):
 
 
 def date8(rng):
+    if rng.random() < 0.1:
+        return rng.choice(["00000000", "99999999", "20241331", "10000101"])     # "any 8-digit date"
     return "%04d%02d%02d" % (rng.choice([1999, 2015, 2024, 2030]), rng.randint(1, 12), rng.randint(1, 28))
 
 
